@@ -624,20 +624,20 @@ def subchecks(tier):
         Sub("join_unsupported", join_case(None, unsupported=True), test_join,
             400 if q else 8000, generic=GENERIC_JOIN_UNSUPPORTED, shards=2),
         Sub("fixij", fixij_case, test_fixij, 100 if q else 1000),
-        Sub("read", sim_case(big), test_read, 128 if q else 10000,
+        Sub("read", sim_case(big), test_read, 200 if q else 8000,
             generic=GENERIC_READ, shards=8 if q else 16, shrink_quick=True),
         # shards=1 in quick: the fixed cases then exclude every known
         # discriminator before the random search starts
         Sub("read_small", sim_case(["2", "3"], nlev_max=2), test_read,
-            30 if q else 2000, generic=GENERIC_SMALL, shards=1 if q else 16,
+            40 if q else 1200, generic=GENERIC_SMALL, shards=1 if q else 16,
             max_rounds=8, shrink_quick=False),
         Sub("ghost0", sim_case(["1", "4-8"], ghost_lo=0, nlev_max=2),
-            test_ghost0, 24 if q else 600, generic=GENERIC_GHOST0,
+            test_ghost0, 32 if q else 400, generic=GENERIC_GHOST0,
             shards=2 if q else 8, shrink_quick=False),
         Sub("layouts4", sim_case(["4-8", "9-27"], nlev_max=2,
                                  fixed_layout=False), test_layouts4,
-            24 if q else 2500, shards=8 if q else 16),
+            32 if q else 1600, shards=8 if q else 16),
         Sub("unsupported", sim_case(["1"], unsupported=True, nlev_max=2),
-            test_unsupported, 48 if q else 1500, generic=GENERIC_UNSUPPORTED,
+            test_unsupported, 64 if q else 1200, generic=GENERIC_UNSUPPORTED,
             shards=8 if q else 16),
     ]
